@@ -444,6 +444,9 @@ class AdaptivePolicy:
             self.failures += 1
         old_rate = self._current_rate
         self._current_rate = max(self._min_rate, self._current_rate * self._decrease_factor)
+        # The bucket never holds more than the capacity of the current rate
+        # (otherwise tokens accrued under the old rate are spent after the decrease).
+        self._tokens = min(self._tokens, self._current_rate * self._window_size)
         if self._current_rate < old_rate:
             self.rate_decreases += 1
             self.rate_history.append(RateSnapshot(time=now, rate=self._current_rate, reason=reason))
